@@ -156,6 +156,8 @@ pub struct Pools {
     pub zoneds: P<Zoned>,
     pub zoneds_m: P<Zoned>,
     pub zoneds_s: P<Zoned>,
+    /// every ordered pair of instants of one zone, for every zone
+    pub zoned_pairs: P<(Zoned, Zoned)>,
     pub spans: P<Span>,
     pub spans_s: P<Span>,
     pub span_bases: P<Span>,
@@ -400,7 +402,16 @@ pub fn build(quick: bool) -> Pools {
     }
 
     // ---- civil ----------------------------------------------------------
-    let dates = vf::pools::dates();
+    let mut dates = vf::pools::dates();
+    if !quick {
+        for (y, m, d) in [
+            (2024, 1, 1), (2023, 3, 31), (2023, 4, 30), (2024, 2, 28), (2024, 3, 1), (2021, 2, 28), (1900, 2, 28), (1900, 3, 1), (2000, 12, 31),
+            (2001, 1, 1), (1582, 10, 15), (-1, 1, 1), (4, 2, 29), (400, 2, 29), (-400, 2, 29), (9999, 1, 1), (9999, 2, 28), (-9999, 12, 1),
+            (9998, 12, 31), (-9998, 1, 1), (2011, 12, 30), (2011, 12, 29), (1919, 3, 1),
+        ] {
+            dates.push(Date::new(y, m, d).unwrap());
+        }
+    }
     // limits first
     let lim_first = |d: &Date| if *d == Date::MIN || *d == Date::MAX { 0 } else { 1 };
     let mut dates_sorted = dates.clone();
@@ -449,10 +460,8 @@ pub fn build(quick: bool) -> Pools {
         "UTC",
     ];
     let mut zones_v: Vec<(String, TimeZone, Option<refmodel::tz::Zone>)> = vec![];
+    let _ = quick_zones;
     for z in vf::zones::rep() {
-        if quick && !quick_zones.contains(&z.name.as_str()) {
-            continue;
-        }
         let pair = vf::zones::load_pair(&z).expect("rep zone loads");
         zones_v.push((z.name.clone(), pair.jiff, Some(pair.model)));
     }
@@ -468,14 +477,16 @@ pub fn build(quick: bool) -> Pools {
     ));
     zones_v.push(("unknown".into(), TimeZone::unknown(), None));
 
-    // zoned pool: per zone the timestamp pool plus, around up to three
-    // transitions (the first recorded one and the last two before 2025),
+    // zoned pool: per zone the timestamp pool plus, around up to `ntrans`
+    // transitions (the first recorded one and the last ones before 2025),
     // T-1ns, T, T+30min
     let y2025 = refmodel::cal::days_from_civil(2025, 1, 1) * 86400;
     let mut zoneds_v: Vec<Zoned> = vec![];
     let mut zoneds_m: Vec<Zoned> = vec![];
     let mut zoneds_s: Vec<Zoned> = vec![];
-    let mlim = if quick { 6 } else { 4 };
+    let mlim = 4;
+    let ntrans = if quick { 3 } else { 10 };
+    let mut zoned_pairs: Vec<(Zoned, Zoned)> = vec![];
     for (zi, (_, tz, model)) in zones_v.iter().enumerate() {
         let mut inst: Vec<i128> = tss_v.iter().map(|t| t.as_nanosecond()).collect();
         let mut tr: Vec<i128> = vec![];
@@ -490,7 +501,7 @@ pub fn build(quick: bool) -> Pools {
             if let Some(f) = ch.first() {
                 pickv.push(*f);
             }
-            for s in ch.iter().rev().take(2) {
+            for s in ch.iter().rev().take(ntrans - 1) {
                 if !pickv.contains(s) {
                     pickv.push(*s);
                 }
@@ -504,14 +515,20 @@ pub fn build(quick: bool) -> Pools {
         for (k, n) in inst.iter().enumerate() {
             let z = Zoned::new(Timestamp::from_nanosecond(*n).unwrap(), tz.clone());
             // medium: limits, epoch-ish and the transition neighbours
-            if k < mlim || k >= tss_v.len() {
+            if k < mlim || (k >= tss_v.len() && k < tss_v.len() + 9) {
                 zoneds_m.push(z.clone());
             }
             // small: first five zones, limits + last transition neighbours
-            if zi < 5 && (k < 2 || k == 4 || k + 3 >= inst.len()) {
+            if zi < 5 && (k < 2 || k == 4 || (k >= tss_v.len() + 3 && k < tss_v.len() + 6)) {
                 zoneds_s.push(z.clone());
             }
             zoneds_v.push(z);
+        }
+        let mine = &zoneds_v[zoneds_v.len() - inst.len()..];
+        for a in mine {
+            for b in mine {
+                zoned_pairs.push((a.clone(), b.clone()));
+            }
         }
     }
     let mut zone_names: Vec<String> = zones_v.iter().filter(|z| z.2.is_some() && !z.0.starts_with("posix")).map(|z| z.0.clone()).collect();
@@ -668,8 +685,8 @@ pub fn build(quick: bool) -> Pools {
         // New_York (or the first zone) at the limits and next to its last transition
         let (_, tz, _) = &zones_v[0];
         let picks: Vec<&Zoned> = zoneds_v.iter().filter(|z| z.time_zone() == tz).collect();
-        let n = picks.len();
-        for k in [0usize, 1, n - 3, n - 2] {
+        // 0, 1: Timestamp::MIN / MAX; 21, 22: T-1ns and T of the zone's last transition before 2025
+        for k in [0usize, 1, 21, 22] {
             rels.push((zoned_label(picks[k]), Rel::Zoned(picks[k].clone())));
         }
         let (_, tz, _) = &zones_v[3.min(zones_v.len() - 1)];
@@ -733,6 +750,7 @@ pub fn build(quick: bool) -> Pools {
         zoneds: p(zoneds_v, zoned_label),
         zoneds_m: p(zoneds_m, zoned_label),
         zoneds_s: p(zoneds_s, zoned_label),
+        zoned_pairs: p(zoned_pairs, |ab| format!("{} | {}", zoned_label(&ab.0), zoned_label(&ab.1))),
         spans: P(Arc::new(spans)),
         spans_s: P(Arc::new(spans_s)),
         span_bases: P(Arc::new(span_bases)),
